@@ -90,6 +90,7 @@ type Rec struct {
 	runs       []RapidRun
 	failures   []Failure
 	replayed   int
+	bulkNT     int64
 	start      time.Time
 	curKind    string
 }
@@ -139,6 +140,28 @@ func (r *Rec) Case(fp uint64, nontrivial bool, class string, sample func() inter
 			r.samples = append(r.samples, sample())
 		}
 	}
+}
+
+// Bulk records n enumerated cases that are distinct by construction (each
+// value / sequence of a finite space visited exactly once), nt of which are
+// non-trivial. No fingerprints are stored for them.
+func (r *Rec) Bulk(class string, n, nt int64) {
+	r.mu.Lock()
+	r.evals += n
+	r.bulkNT += nt
+	if class != "" {
+		r.classes[class] += n
+	}
+	r.mu.Unlock()
+}
+
+// Sample adds a sample case directly.
+func (r *Rec) Sample(v interface{}) {
+	r.mu.Lock()
+	if len(r.samples) < 24 {
+		r.samples = append(r.samples, v)
+	}
+	r.mu.Unlock()
 }
 
 // Count adds to the class histogram without counting an evaluation.
@@ -225,6 +248,7 @@ type ShardResult struct {
 	Shards      int              `json:"shards"`
 	Evaluations int64            `json:"evaluations"`
 	Nontrivial  int              `json:"nontrivial_in_shard"`
+	BulkNT      int64            `json:"bulk_distinct_nontrivial"`
 	Classes     map[string]int64 `json:"classes"`
 	Samples     []interface{}    `json:"samples"`
 	Excluded    map[string]int64 `json:"excluded,omitempty"`
@@ -243,7 +267,7 @@ func (r *Rec) Finish(t *testing.T) {
 	r.mu.Lock()
 	res := ShardResult{
 		Property: r.Prop, Tier: *Tier, Seed: *Seed, Shard: *Shard, Shards: *Shards,
-		Evaluations: r.evals, Nontrivial: len(r.fps), Classes: r.classes, Samples: r.samples,
+		Evaluations: r.evals, Nontrivial: len(r.fps), BulkNT: r.bulkNT, Classes: r.classes, Samples: r.samples,
 		Excluded: r.excluded, Notes: r.notes, Exhaustive: r.exhaustive, Runs: r.runs,
 		Failures: r.failures, Replayed: r.replayed, WallS: time.Since(r.start).Seconds(),
 	}
